@@ -253,3 +253,34 @@ pub fn c16_peer_entry_limit_and_flags() {
     vcover!(n6 >= 8, "eight_or_more_ipv6_addresses");
     witness!();
 }
+
+/// ... and the same statements of NodeInfo::encode_addrs_part (the node's own address list): at most seven per family,
+/// flags byte = the two counts, top two bits clear.
+#[cfg_attr(kani, kani::proof, kani::unwind(12))]
+pub fn c16_own_addrs_limit_and_flags() {
+    let n4: usize = kani::any();
+    let n6: usize = kani::any();
+    kani::assume(n4 <= 10 && n6 <= 10);
+    let mut a4: SmallVec<[u8; 16]> = SmallVec::new();
+    let mut a6: SmallVec<[u8; 16]> = SmallVec::new();
+    let mut i = 0;
+    while i < 10 {
+        if i < n4 {
+            a4.push(4);
+        }
+        if i < n6 {
+            a6.push(6);
+        }
+        i += 1;
+    }
+    let (flags, l4, l6) = x_own_addrs_flags(a4, a6);
+    let e4 = if n4 < 7 { n4 } else { 7 };
+    let e6 = if n6 < 7 { n6 } else { 7 };
+    assert!(l4 == e4 && l6 == e6);
+    assert!((flags & 0x07) as usize == e4);
+    assert!(((flags >> 3) & 0x07) as usize == e6);
+    assert!(flags & 0xc0 == 0);
+    vcover!(n4 == 8, "eight_ipv4_addresses");
+    vcover!(n6 >= 8, "eight_or_more_ipv6_addresses");
+    witness!();
+}
